@@ -134,3 +134,93 @@ func applyScenario(doc *JV, idx []int64) bool {
 	}
 	return changed
 }
+
+// ---------------------------------------------------------------------------
+// members other documents carry at the same place
+
+var (
+	srcCatMu sync.Mutex
+	srcCat   map[string]map[string][]string
+)
+
+// sourceCatalog: for each (schema, generic pointer) of the source documents of the
+// corpus, the members seen there with up to four distinct sample values. Edits
+// transplant them into documents that lack them, so that shapes no single shipped
+// example has (a payment with delivery details, an order with advances, ...) occur.
+func sourceCatalog() map[string]map[string][]string {
+	srcCatMu.Lock()
+	defer srcCatMu.Unlock()
+	if srcCat != nil || theCorpus == nil {
+		return srcCat
+	}
+	m := map[string]map[string][]string{}
+	for _, d := range theCorpus.Valid {
+		doc := c04sourceDoc(d)
+		if doc == nil || doc.K != 'o' {
+			continue
+		}
+		for _, n := range Walk(doc, "") {
+			if n.V.K != 'o' {
+				continue
+			}
+			g := typedPtr(doc, n.Ptr)
+			if m[g] == nil {
+				m[g] = map[string][]string{}
+			}
+			for _, mem := range n.V.M {
+				if strings.HasPrefix(mem.Key, "$") || mem.Key == "uuid" {
+					continue
+				}
+				val := string(mem.V.Encode(nil))
+				have := false
+				for _, e := range m[g][mem.Key] {
+					if e == val {
+						have = true
+					}
+				}
+				if !have && len(m[g][mem.Key]) < 4 && len(val) < 4096 {
+					m[g][mem.Key] = append(m[g][mem.Key], val)
+				}
+			}
+		}
+	}
+	srcCat = m
+	return m
+}
+
+// applyTransplant adds to one object of the document a member that other source
+// documents of the corpus carry at the same place.
+func applyTransplant(doc *JV, i, j, k int64) bool {
+	cat := sourceCatalog()
+	if cat == nil {
+		return false
+	}
+	var objs []Node
+	for _, n := range Walk(doc, "") {
+		if n.V.K == 'o' {
+			objs = append(objs, n)
+		}
+	}
+	if len(objs) == 0 {
+		return false
+	}
+	n := objs[int(i)%len(objs)]
+	g := typedPtr(doc, n.Ptr)
+	var cands []string
+	for _, key := range SortedKeys(cat[g]) {
+		if n.V.Get(key) == nil {
+			cands = append(cands, key)
+		}
+	}
+	if len(cands) == 0 {
+		return false
+	}
+	key := cands[int(j)%len(cands)]
+	samples := cat[g][key]
+	val, err := ParseJV([]byte(samples[int(k)%len(samples)]))
+	if err != nil {
+		return false
+	}
+	n.V.Set(key, val)
+	return true
+}
